@@ -60,6 +60,8 @@ def gen_cases(tier, seed):
                                            'preexisting': rng.random() < 0.3}],
                             'get_read_caps': rng.choice(caps_menu),
                             'plan': {'delay_p': rng.choice([0.0, 0.2])}}
+                    if dst == 'fifo' and rng.random() < 0.3:
+                        spec['transfers'][0]['symlink'] = True  # the FIFO is named through a symbolic link (like /dev/stdout)
                     rs = ranges_of(size, T, C)
                     faults = []
                     if variant >= 1 and attempts > 1:
